@@ -725,6 +725,9 @@ pub fn exec(plan: &WirePlan) -> RunOut {
             let req = b.req.clone().unwrap();
             w.wire_override = Some(b.wire);
             let s = w.step_req(req, &Chunking::Whole, "wire", &mut out);
+            if cur_allow.is_some() && matches!(s.resp, crate::model::Resp::Refused(403)) {
+                out.violations.push(viol(&["C16"], "allow.listed_client_refused", format!("{} comes from a client that is on the allow-list but was answered 403", b.label)));
+            }
             if b.big {
                 out.bump(&format!("probe.body_at_limit.{}", s.resp.class()));
                 if matches!(s.resp, crate::model::Resp::Refused(_) | crate::model::Resp::Error(_) | crate::model::Resp::Panic(_)) {
